@@ -496,7 +496,7 @@ func (w *o43World) pipeCall(tp *simkern.Tape, serverTask string, conn *hx.Conn, 
 
 type o43Cfg struct {
 	tracing, metrics, recordExc bool
-	sampler                     int // 0 always, 1 parent-based(always), 2 never
+	sampler                     int // 0 always, 1 parent-based(always), 2 never, 3 record-only under a sampled-out parent
 	explicitPropagator          bool
 }
 
@@ -508,6 +508,20 @@ type o43Telemetry struct {
 	cfg    vgiotel.OtelConfig
 }
 
+// o43RecordOnlySampler: RecordAndSample under a sampled (or absent) parent,
+// RecordOnly under a sampled-out parent.
+type o43RecordOnlySampler struct{}
+
+func (o43RecordOnlySampler) ShouldSample(p sdktrace.SamplingParameters) sdktrace.SamplingResult {
+	psc := trace.SpanContextFromContext(p.ParentContext)
+	d := sdktrace.RecordAndSample
+	if psc.IsValid() && !psc.IsSampled() {
+		d = sdktrace.RecordOnly
+	}
+	return sdktrace.SamplingResult{Decision: d, Tracestate: psc.TraceState()}
+}
+func (o43RecordOnlySampler) Description() string { return "o43RecordOnlySampler" }
+
 func o43NewTelemetry(w *o43World, c o43Cfg) *o43Telemetry {
 	t := &o43Telemetry{rec: tracetest.NewSpanRecorder(), reader: sdkmetric.NewManualReader()}
 	var s sdktrace.Sampler
@@ -516,6 +530,10 @@ func o43NewTelemetry(w *o43World, c o43Cfg) *o43Telemetry {
 		s = sdktrace.ParentBased(sdktrace.AlwaysSample())
 	case 2:
 		s = sdktrace.NeverSample()
+	case 3:
+		// records every span but samples (exports) only those whose parent was
+		// sampled: spans under a sampled-out parent are recording and unsampled
+		s = o43RecordOnlySampler{}
 	default:
 		s = sdktrace.AlwaysSample()
 	}
@@ -596,7 +614,7 @@ func C43(e *simkern.Env) {
 		tracing:            !tp.Bool(1, 8),
 		metrics:            !tp.Bool(1, 8),
 		recordExc:          !tp.Bool(1, 4),
-		sampler:            tp.Weighted([]int{6, 3, 1}),
+		sampler:            tp.Weighted([]int{6, 3, 1, 3}),
 		explicitPropagator: !tp.Bool(1, 3),
 	}
 	nInst := 1 + tp.Draw(2)
@@ -616,7 +634,7 @@ func C43(e *simkern.Env) {
 	ambient := tp.Bool(1, 3)
 	e.Knob("tracing", cfg.tracing)
 	e.Knob("metrics", cfg.metrics)
-	e.Knob("sampler", []string{"always", "parent-based", "never"}[cfg.sampler])
+	e.Knob("sampler", []string{"always", "parent-based", "never", "record-only-under-unsampled-parent"}[cfg.sampler])
 	e.Knob("explicit_propagator", cfg.explicitPropagator)
 	e.Knob("http_instances", nInst)
 	e.Knob("batch_limit", batchLimit)
@@ -868,7 +886,7 @@ func init() {
 	Registry["C43"] = &Info{
 		Run:   C43,
 		Level: "exploration",
-		Rule: "each run draws the hook configuration (tracing on/off, metrics on/off, RecordExceptions, sampler always | parent-based | never, explicit or global W3C propagator), 1-2 HTTP instances with producer batch limit 1-2, 0-3 HTTP client tasks and 0-2 pipe connections (each a real Server.ServeWithContext task on a simulated pipe, optionally fragmented), and per client 2-4 (thorough 2-7) calls from the tape: scripted unary methods and producer/exchange streams (with and without header) that succeed, fail or panic in the handler, fail at a drawn turn, or are cancelled by the client; over HTTP a stream is an init plus continuation requests, each its own dispatch; every request independently carries a fresh traceparent (sampled or not, with or without tracestate), nothing, or a tracestate alone; " +
+		Rule: "each run draws the hook configuration (tracing on/off, metrics on/off, RecordExceptions, sampler always | parent-based | never | record-only under a sampled-out parent, explicit or global W3C propagator), 1-2 HTTP instances with producer batch limit 1-2, 0-3 HTTP client tasks and 0-2 pipe connections (each a real Server.ServeWithContext task on a simulated pipe, optionally fragmented), and per client 2-4 (thorough 2-7) calls from the tape: scripted unary methods and producer/exchange streams (with and without header) that succeed, fail or panic in the handler, fail at a drawn turn, or are cancelled by the client; over HTTP a stream is an init plus continuation requests, each its own dispatch; every request independently carries a fresh traceparent (sampled or not, with or without tracestate), nothing, or a tracestate alone; " +
 			"the scheduler interleaves the tasks at woven sites and harness yields (so dispatches overlap between hook start and hook end) and moves the clock; oracle at the end of the run over the SDK's span recorder, an End-counting wrapper and the manual metric reader; distinct = distinct schedule fingerprint; non-trivial = at least two dispatches and (tasks interleaved, or a call failed, or a traceparent was sent)",
 		Real:  []string{"vgiotel.InstrumentServer / otelHook.OnDispatchStart / OnDispatchEnd", "vgirpc.Server dispatch over a pipe (ServeWithContext, serveUnary, serveStream)", "vgirpc.HttpServer (unary, stream init, stream exchange, startDispatchHook, buildHTTPTransportMeta)", "OpenTelemetry Go SDK v1.44 (TracerProvider, tracetest.SpanRecorder, MeterProvider, ManualReader, propagation.TraceContext)"},
 		Stub:  []string{"protocol clients (arrow-go IPC; lockstep stream client on the pipe)", "simulated pipe; HTTP transport (direct ServeHTTP call)", "scripted handlers and stream states", "TracerProvider wrapper that attributes each started span to the call its task is serving and counts End calls (forwards everything to the SDK)", "counter-based span/trace id generator"},
